@@ -55,6 +55,8 @@ type Contract struct {
 	AxiomRefs  []string
 	Timeout    int
 	Solvers    []string
+	RegionAnchor string    // region contract (Key "Func#name"): the statement of Func this contract is about
+	Returns      []*Clause // region contract: conditions checked at every return statement inside the region
 }
 
 // Cut is an intermediate assertion anchored before the statement whose source text starts
@@ -76,7 +78,7 @@ type LemmaParam struct {
 	Type ast.Expr
 }
 
-var clauseKeywords = []string{"requires", "ensures", "modifies", "loop", "reveal", "inline", "trusted", "pure", "maynil", "mayalias", "mode", "split", "timeout", "solvers", "cut", "joinswitch", "assume", "axiom"}
+var clauseKeywords = []string{"region", "returns", "requires", "ensures", "modifies", "loop", "reveal", "inline", "trusted", "pure", "maynil", "mayalias", "mode", "split", "timeout", "solvers", "cut", "joinswitch", "assume", "axiom"}
 
 // parseContractComments extracts contract blocks from a file's comments.
 func parseContractComments(fset *token.FileSet, f *ast.File, pkgPath string) ([]*Contract, error) {
@@ -262,6 +264,18 @@ func (c *Contract) addClause(kw, text, src string) error {
 		return &Clause{Kind: kind, Text: text, Expr: e, Ord: ord, Src: src}, nil
 	}
 	switch kw {
+	case "region":
+		t := strings.TrimSpace(text)
+		if len(t) < 2 || !strings.HasPrefix(t, "\"") || !strings.HasSuffix(t, "\"") {
+			return fmt.Errorf("%s: region: want a quoted statement anchor", src)
+		}
+		c.RegionAnchor = t[1 : len(t)-1]
+	case "returns":
+		cl, err := mk("returns", len(c.Returns))
+		if err != nil {
+			return err
+		}
+		c.Returns = append(c.Returns, cl)
 	case "requires":
 		cl, err := mk("requires", len(c.Requires))
 		if err != nil {
